@@ -3,7 +3,10 @@ package main
 // Harness API: functions of the overlaid zz_verif_rt.go intercepted by name.
 
 import (
+	"encoding/hex"
+	"encoding/json"
 	"fmt"
+	"hash/crc32"
 	"go/types"
 	"sort"
 	"strings"
@@ -41,6 +44,14 @@ func (ex *Exec) mkViolation(kind, msg, where string, extraC *Term) *violation {
 	}
 	if len(ex.notes) > 0 {
 		v.Extra["notes"] = strings.Join(ex.notes, " | ")
+	}
+	if img, ok := ex.extra["fsimage"].(*fsImage); ok {
+		v.Extra["fsimage"] = ex.dumpImage(img, m)
+	}
+	if rec, ok := ex.extra["recorded"].(map[string]int64); ok {
+		for k, val := range rec {
+			v.Extra["rec."+k] = fmt.Sprint(val)
+		}
 	}
 	if tags, ok := ex.extra["tags"].([]string); ok {
 		v.Extra["tags"] = strings.Join(tags, ",")
@@ -118,6 +129,15 @@ func init() {
 		"vAssert": func(ex *Exec, fr *frame, a []value) value {
 			msg, _ := a[1].(string)
 			ex.assertProp(fr, ex.term(a[0]), msg)
+			return nil
+		},
+		"vRecord": func(ex *Exec, fr *frame, a []value) value {
+			rec, _ := ex.extra["recorded"].(map[string]int64)
+			if rec == nil {
+				rec = map[string]int64{}
+				ex.extra["recorded"] = rec
+			}
+			rec[a[0].(string)] = ex.asInt(a[1])
 			return nil
 		},
 		"vCover": func(ex *Exec, fr *frame, a []value) value {
@@ -334,4 +354,63 @@ func (ex *Exec) flushAsserts() {
 		sh.mu.Unlock()
 		panic(pathAbort{kind: "inconclusive", reason: "solver unknown on assertion batch"})
 	}
+}
+
+// dumpImage concretises a file-system snapshot under a model (JSON: path ->
+// {"size": n, "hex": prefix-bytes}); crc32 UF applications are evaluated with
+// the real CRC so that the image is what the real code would have written.
+func (ex *Exec) dumpImage(img *fsImage, model map[string]uint64) string {
+	m2 := map[string]uint64{}
+	for k, v := range model {
+		m2["|"+k+"|"] = v
+	}
+	uf := func(name string, args []uint64) (uint64, bool) {
+		var poly uint32
+		var n int
+		if _, err := fmt.Sscanf(name, "crc32_%x_%d", &poly, &n); err != nil || len(args) != n+1 {
+			return 0, false
+		}
+		t := crcTables[poly]
+		if t == nil {
+			t = crc32.MakeTable(poly)
+			crcTables[poly] = t
+		}
+		b := make([]byte, n)
+		for i := range b {
+			b[i] = byte(args[i+1])
+		}
+		return uint64(crc32.Update(uint32(args[0]), t, b)), true
+	}
+	type fileDump struct {
+		Size int    `json:"size"`
+		Hex  string `json:"hex"`
+	}
+	out := map[string]any{}
+	files := map[string]fileDump{}
+	for p, b := range img.files {
+		size := b[len(b)-1].(int)
+		raw := make([]byte, len(b)-1)
+		for i, c := range b[:len(b)-1] {
+			switch c := c.(type) {
+			case uint8:
+				raw[i] = c
+			case sv:
+				v, ok := ex.tt.Eval(c.t, m2, uf)
+				if !ok {
+					return "{\"error\":\"cannot evaluate image byte\"}"
+				}
+				raw[i] = byte(v)
+			}
+		}
+		// trim trailing zeros
+		n := len(raw)
+		for n > 0 && raw[n-1] == 0 {
+			n--
+		}
+		files[p] = fileDump{Size: size, Hex: hex.EncodeToString(raw[:n])}
+	}
+	out["files"] = files
+	out["dirs"] = img.dirs
+	js, _ := json.Marshal(out)
+	return string(js)
 }
